@@ -122,26 +122,9 @@ Section Contract.
   Notation is_empty := (is_empty F fis_zero).
   Notation unmarshal := (unmarshal num F int_of_num flt_of_num fzero).
 
-  (* a value that prints as null: a pointer to it does not come back *)
-  Fixpoint prints_null (v : gval) : bool :=
-    match v with
-    | GSlice None | GMap None | GPtr None => true
-    | GPtr (Some p) => prints_null p
-    | _ => false
-    end.
-
-  (* [survives] plus: no pointer to a value that prints as null *)
-  Fixpoint ptr_ok (t : fty) (v : gval) {struct t} : Prop :=
-    match t, v with
-    | TSlice e, GSlice (Some l) => Forall (ptr_ok e) l
-    | TMap e, GMap (Some l) => Forall (fun kv => ptr_ok e (snd kv)) l
-    | TPtr e, GPtr (Some p) => ptr_ok e p /\ prints_null p = false
-    | TStruct fs, GStruct vs => all2 F (fun fd v => ptr_ok (fd_ty fd) v) fs vs
-    | _, _ => True
-    end.
-
-  Definition guard (t : fty) (v : gval) : Prop :=
-    survives F fzero fis_zero t v /\ ptr_ok t v.
+  Notation prints_null := (prints_null F).
+  Notation ptr_ok := (ptr_ok F).
+  Notation guard := (lossless F fzero fis_zero).
 
   Definition rt (t : fty) (v : gval) : Prop :=
     exists j, enc t v = Ok j /\ dec t j (zero_of t) = Ok (v, None) /\
@@ -491,3 +474,44 @@ Section Contract.
       + rewrite (no_kind_no_req t tag req Hin Hnk). exact I.
   Qed.
 End Contract.
+
+(* ------------------------------------------------------------------ *)
+(* the loss the stats payloads do have, on the concrete instance: an
+   ICECandidateStats whose CandidateType is the zero constant *)
+Definition cand0 : gval Z := stats_zero Z c_fzero ICECandidateStats "remote-candidate" "".
+
+Lemma cand0_typed : has_type Z (stats_fty ICECandidateStats) cand0.
+Proof.
+  vm_compute. repeat split.
+  exists (E_ICECandidateType, icecandidatetype_dec). split; [reflexivity | simpl; tauto].
+Qed.
+Lemma cand0_own : own_tag Z ICECandidateStats cand0.
+Proof. exists None. split; [vm_compute; tauto | exact I]. Qed.
+Lemma cand0_excluded : ~ lossless Z c_fzero c_fis_zero (stats_fty ICECandidateStats) cand0.
+Proof.
+  intros [Hs _]. vm_compute in Hs.
+  repeat match type of Hs with _ /\ _ => destruct Hs as [?H Hs] end.
+  repeat match goal with H : (_ /\ _) |- _ => destruct H end.
+  match goal with
+  | H : forall ed, _ = Ok ed -> _ |- _ =>
+      apply (H (E_ICECandidateType, icecandidatetype_dec) eq_refl); split; reflexivity
+  end.
+Qed.
+Lemma cand0_fails : c_stats_roundtrip ICECandidateStats cand0 = Err "unknown-candidate-type".
+Proof. vm_compute. reflexivity. Qed.
+
+(* the generic coder says where encoding/json itself loses information, on
+   shapes no pion Stats type has today *)
+Example omitempty_empty_slice_comes_back_nil :
+  let t := TStruct [FD "L" "l" true (TSlice TStr)] in
+  rbind (c_marshal t (GStruct [GSlice (Some [])])) (c_unmarshal t) = Ok (GStruct [GSlice None]).
+Proof. vm_compute. reflexivity. Qed.
+Example pointer_to_nil_slice_comes_back_nil :
+  let t := TStruct [FD "P" "p" false (TPtr (TSlice TStr))] in
+  rbind (c_marshal t (GStruct [GPtr (Some (GSlice None))])) (c_unmarshal t) = Ok (GStruct [GPtr None]).
+Proof. vm_compute. reflexivity. Qed.
+Example omitempty_pointer_to_zero_survives :
+  let t := TStruct [FD "P" "p" true (TPtr (TStruct [FD "B" "b" false TBool]))] in
+  rbind (c_marshal t (GStruct [GPtr (Some (GStruct [GBool false]))])) (c_unmarshal t)
+  = Ok (GStruct [GPtr (Some (GStruct [GBool false]))]).
+Proof. vm_compute. reflexivity. Qed.
